@@ -2,6 +2,7 @@ package props
 
 import (
 	"fmt"
+	"io"
 	"strconv"
 	"sync"
 
@@ -65,7 +66,7 @@ func (c *c17BigCase) Weight() int { return c.Target/1024 + c.Order }
 func c17BigSub() *engine.Sub {
 	return &engine.Sub{
 		Name: "sections-around-one-and-two-mebibytes",
-		Rule: "a container holding two ordinary tokens and a delegation padded (metadata bytes) so that its CAR section - 36 bytes of CID plus the sealed token - measures exactly 2^20-1, 2^20, 2^20+1, 2^20+2^19, 2^21-1, 2^21, 2^21+1 and 3*2^20+5 bytes; the big token first, in the middle or last; all 4 formats, both writers, both readers: reading what was written gives exactly the tokens added, under their CIDs; non-trivial = all",
+		Rule: "a container holding two ordinary tokens and a delegation padded (metadata bytes) so that its CAR section - 36 bytes of CID plus the sealed token - measures exactly 2^20-1, 2^20, 2^20+1, 2^20+2^19, 2^21-1, 2^21, 2^21+1 and 3*2^20+5 bytes; the big token first, in the middle or last; all 4 formats, both writers, both readers: reading what was written gives exactly the tokens added, under their CIDs - also from a source whose last Read returns the final bytes together with io.EOF; non-trivial = all",
 		Bound: func(string) string {
 			return fmt.Sprintf("%d section sizes x (CAR: 3 positions + 3 other formats) x 2 writers x 2 readers", len(c17SectionTargets))
 		},
@@ -115,6 +116,29 @@ func c17BigSub() *engine.Sub {
 			ctx.Outcome("ok")
 			if containerView(r) != expectedSetView(names) {
 				ctx.Failf(cs, "wrong-set/big-section/"+cs.Format, "reading back a container with a section of %d bytes gives a different set of tokens", cs.Target)
+			}
+			// the stream readers again, from a source whose last Read hands over the final bytes TOGETHER with io.EOF
+			// (gzip / flate readers, HTTP bodies of known length do that) - as much as the caller asks for at once
+			if cs.RStream {
+				var r2 container.Reader
+				var err2 error
+				src := &dataWithEOFReader{data: data}
+				switch cs.Format {
+				case "car":
+					r2, err2 = container.FromCarReader(src)
+				case "car64":
+					r2, err2 = container.FromCarBase64Reader(src)
+				case "cbor":
+					r2, err2 = container.FromCborReader(src)
+				default:
+					r2, err2 = container.FromCborBase64Reader(src)
+				}
+				ctx.Eval(1)
+				if err2 != nil {
+					ctx.Failf(cs, "read-fails/last-bytes-with-eof/"+cs.Format, "a container the library wrote cannot be read from a source that returns its last bytes together with io.EOF: %v", err2)
+				} else if containerView(r2) != expectedSetView(names) {
+					ctx.Failf(cs, "wrong-set/last-bytes-with-eof/"+cs.Format, "read from a source that returns its last bytes together with io.EOF, the container of %d tokens (one section of %d bytes) gives %d tokens", len(names), cs.Target, len(r2))
+				}
 			}
 		},
 	}
@@ -255,4 +279,19 @@ func c17SigLenSub() *engine.Sub {
 			}
 		},
 	}
+}
+
+// dataWithEOFReader delivers as much as is asked for and returns io.EOF together with the last bytes.
+type dataWithEOFReader struct {
+	data []byte
+	pos  int
+}
+
+func (r *dataWithEOFReader) Read(p []byte) (int, error) {
+	n := copy(p, r.data[r.pos:])
+	r.pos += n
+	if r.pos >= len(r.data) {
+		return n, io.EOF
+	}
+	return n, nil
 }
